@@ -7,7 +7,7 @@ NOTE_COMMON = ("Trusted base: python's ast grammar; the documented semantics of 
                "helpers resolved through the reference call table, canonical conditionals, fill-by-loop accumulators as "
                "comprehensions, local functions as lambdas, displays unrolled); where a rule evaluates an extracted formula on a "
                "grid of placements the verdict holds for the listed points; the thorough tier re-runs the "
-               "mutant catalogue, the engine self-test and the 1013 stored seeded changes that are run (527 defects, 486 behaviour-preserving refactors; 5 further refactors of wave 16 are still reported by some check -- open false alarms, DESIGN 8.25 -- and 7 more are retired since repairs changed the code under them). Every check also runs, on its anchor files and the functions it summarises, the common rules G.1 - G.3 (shared state, input mutation), G.4 / G.5 (public signatures, constants, pydantic model declarations incl. value-rewriting validators / serialisers, and class bases against the reference table sa/pinned_decls.json), G.9 (public names of the package resolve to the analysed definitions, else the rules are re-run on the replacing definition), G.10 (no pydantic model built or altered past its validators), G.11 (calls of in-package functions bind against their signatures, model constructions give every required field), G.12 (the entry functions the property speaks about keep serving every valid request: no own rejection, None answer or skipped effect on a path a valid request can take -- decided over intervals / order relations of input-determined quantities, rules/serves.py); calls are compared in one spelling (reference call-site spelling, documented default options of third-party calls folded away -- the default tables in sa/sym.py are part of the trusted base), G.6 - G.8 (one-shot iterators, mutation while iterating, swallowed exceptions, truthiness of model instances); new optional parameters of reference functions are analysed at their defaults.")
+               "mutant catalogue, the engine self-test and the 1018 active stored seeded changes (527 defects, 491 behaviour-preserving refactors; 7 more are retired since repairs changed the code under them). Every check also runs, on its anchor files and the functions it summarises, the common rules G.1 - G.3 (shared state, input mutation), G.4 / G.5 (public signatures, constants, pydantic model declarations incl. value-rewriting validators / serialisers, and class bases against the reference table sa/pinned_decls.json), G.9 (public names of the package resolve to the analysed definitions, else the rules are re-run on the replacing definition), G.10 (no pydantic model built or altered past its validators), G.11 (calls of in-package functions bind against their signatures, model constructions give every required field), G.12 (the entry functions the property speaks about keep serving every valid request: no own rejection, None answer or skipped effect on a path a valid request can take -- decided over intervals / order relations of input-determined quantities, rules/serves.py); calls are compared in one spelling (reference call-site spelling, documented default options of third-party calls folded away -- the default tables in sa/sym.py are part of the trusted base), G.6 - G.8 (one-shot iterators, mutation while iterating, swallowed exceptions, truthiness of model instances); new optional parameters of reference functions are analysed at their defaults.")
 
 CLAIMS = {
     "C01": {
